@@ -38,14 +38,14 @@ theorem foldl_addrs {α : Type} (f : Kernel → α → Kernel) (hf : ∀ k a, (f
   repeat' (first | rfl | split | (dsimp only; split))
   all_goals first | rfl | simp
 
-@[simp] theorem handleOnConn_addrs (k : Kernel) (fd : Fd) (l r : Ep) (s a f rs : Bool) :
-    (k.handleOnConn fd l r s a f rs).addrs = k.addrs := by
+@[simp] theorem handleOnConn_addrs (k : Kernel) (fd : Fd) (l r : Ep) (s a f rs hs : Bool) :
+    (k.handleOnConn fd l r s a f rs hs).addrs = k.addrs := by
   unfold handleOnConn
   repeat' (first | rfl | split | (dsimp only; split))
   all_goals first | rfl | simp
 
-@[simp] theorem deliverTcp_addrs (k : Kernel) (s d : Ep) (sy a f r : Bool) :
-    (k.deliverTcp s d sy a f r).addrs = k.addrs := by
+@[simp] theorem deliverTcp_addrs (k : Kernel) (s d : Ep) (sy a f r hs : Bool) :
+    (k.deliverTcp s d sy a f r hs).addrs = k.addrs := by
   unfold deliverTcp
   repeat' (first | rfl | split | (dsimp only; split))
   all_goals first | rfl | simp
